@@ -18,13 +18,13 @@ CHECKS.update({
              text='Every construct in mido/ that can write a message attribute dict is enumerated and must be one of the analysed writers; Message.__init__, copy, _setattr, from_bytes, SysexData.__iadd__ and check_msgdict are abstractly interpreted with opaque marker values: a check of the stored value precedes the first store on every outcome, rejected names raise before any store, copy never writes the original; the check table is exhaustive and each check accepts exactly the documented integer set.',
              note='Trusted: abstract interpreter, folder, transcribed documentation table. Excluded by the property itself: skip_checks=True. Not decided: skip_checks/self smuggled as a key inside a dict or text passed to from_dict/from_str.',
              ref='DESIGN.md §3 C03'),
- 'C04': dict(tech='one-step abstract interpretation of Tokenizer.feed_byte over 30 abstract pre-states x 256 bytes against a reference transition relation; structural rules on Parser',
-             text='Inductive argument over one-step summaries: for every abstract pre-state and every byte value the transition never raises, emits exactly the token a MIDI 1.0 tokenizer emits (real-time bytes exactly once, completed messages made of the status and the bytes received in order), keeps tokens already pending, never aliases an emitted buffer from a non-idle state and re-establishes the state invariant; every token shape is one C02 proves decodable; Parser._decode/feed are matched structurally.',
+ 'C04': dict(tech='one-step abstract interpretation of Tokenizer.feed_byte over 30 abstract pre-states x 256 bytes against a reference transition relation; abstract interpretation of Parser on a symbolic stream',
+             text='Inductive argument over one-step summaries: for every abstract pre-state and every byte value the transition never raises, emits exactly the token a MIDI 1.0 tokenizer emits (real-time bytes exactly once, completed messages made of the status and the bytes received in order), keeps tokens already pending, never aliases an emitted buffer from a non-idle state and re-establishes the state invariant; every token shape is one C02 proves decodable; Parser feed/feed_byte/_decode/retrieval are abstractly interpreted on a symbolic stream (channel, real-time inside a message, 3-byte sysex) and must hand out exactly its messages.',
              note='Trusted: abstract interpreter; the reference transition relation in midolint/rules/c04.py (allows both reset and keep where the properties allow both); C02 for token->message. No byte stream is executed.',
              ref='DESIGN.md §3 C04'),
- 'C05': dict(tech='structural fold/ownership/FIFO rules over the resolved program + the C04 one-step transitions',
-             text='Chunking independence follows from structure: Tokenizer.feed is exactly a fold of feed_byte, Parser.feed/feed_byte are tokenizer-call-then-decode on every path, tokenizer fields have a closed writer set, no method reads anything but fields/arguments/constants, transitions keep pending tokens, only append/extend/popleft ever touch a message queue anywhere in mido/, pending/get_message/__iter__ observe the same deque from the left, ParserQueue feeds and drains under one lock.',
-             note='Trusted: name resolution and path enumeration; deque semantics. Interleavings of retrieval and feeding commute because their effect sets meet only in the deque (append right / pop left) - argued, not enumerated.',
+ 'C05': dict(tech='abstract interpretation of Parser and ParserQueue histories on a symbolic stream under every 2-cut, byte-wise and constructor feeding with retrieval calls in between; the C04 one-step transitions; purity and single-writer rules',
+             text='One symbolic stream is fed to the interpreted Parser at once, byte by byte, through the constructor, through parse/parse_all and cut at every offset; the messages must be the same four each time; a history interleaving feed/feed_byte with pending/__len__/get_message/iteration must observe first-in first-out delivery, pending = number retrievable, None exactly when empty. The general induction is carried by the C04 one-step transitions (pending tokens kept, state a function of the bytes alone), the purity rule (no method of Tokenizer/Parser reads anything but fields, arguments and constants) and the closed writer set of the tokenizer fields. ParserQueue is interpreted with queue and lock doubles: put_bytes in two chunks with a put in between gives the stream order, poll/iterpoll hand out FIFO then None, and all parser steps happen under the one lock made by __init__.',
+             note='Trusted: abstract interpreter (lazy generator model), name resolution. The chunking argument for arbitrary streams is the induction over one-step transitions; the stream scenarios are its base cases at every cut of every message kind, not a sample of runs (data bytes are symbolic).',
              ref='DESIGN.md §3 C05'),
  'C06': dict(tech='one-step abstract transitions of the tokenizer read as resynchronisation obligations',
              text='For every status byte that starts a message the post-state is the fresh state whatever the pre-state was (prefix forgotten); a real-time byte inside an open sysex leaves the sysex state untouched and is queued at once; from the fresh state data bytes complete exactly one token at the last byte; emitted buffers are final. With C02 this gives parse(P + encode(M)) = parse(P) + [M] by induction over bytes.',
@@ -44,8 +44,8 @@ CHECKS.update({
              ref='DESIGN.md §3 C09'),
 })
 CHECKS.update({
- 'C10': dict(tech='lockset / guarded-by, check-then-act atomicity, lock-order and dummy-lock reachability rules over the resolved port class family; copy-on-send by abstract interpretation',
-             text='Decides the lock discipline that makes exactly-once hold in every interleaving, not the interleavings: every access to the pending deque is inside `with self._lock` or a device hook called only under the lock; each popleft shares a region with its emptiness test; a class with DummyLock/_locking=False must not reach lock-relying base methods that touch the deque (IOPort forwards receive); lock order over container->child edges is acyclic; no sleep under a lock; the device receives a copy.',
+ 'C10': dict(tech='Eraser-style lockset audit over abstract executions of every public call of every port kind (lock, queue and device doubles; event log); alias-aware guarded-by sweep over all methods of the port family; lock-order and dummy-lock reachability rules; copy-on-send by abstract interpretation',
+             text='Decides the lock discipline that makes exactly-once hold in every interleaving, not the interleavings: 40+ abstract executions (receive with/without pending, blocking with delayed delivery, poll, iter_pending, iteration with the device closing, send/reset/panic/close on BaseInput, BaseOutput, BaseIOPort, EchoPort, IOPort, MultiPort) are audited event by event - every use of a pending queue happens with a real lock held and one lock is common to all uses, each popleft is in the same acquisition as the emptiness test guarding it, device hooks run under the port lock, sleep() runs with no lock held, no call raises; a syntactic sweep (aliases of self._lock/self._messages followed) covers methods the scenarios do not run; a class without a real lock must not reach lock-relying base methods on a shared queue; lock order over container->child edges is acyclic; the device receives a copy; ParserQueue feeds and drains under one lock.',
              note='Assumes CPython atomicity of single deque operations and RLock semantics. NOT decided: delivery order / exactly-once as observed histories under real schedules (needs schedule exploration - another technique); backends with their own queue+lock (rtmidi, amidi) are outside the analysed family (listed in evidence; thorough tier applies the rules to the others).',
              ref='DESIGN.md §3 C10'),
  'C11': dict(tech='typestate obligations by abstract interpretation of single port API calls from constructed abstract pre-states with scripted device doubles',
@@ -60,9 +60,9 @@ CHECKS.update({
              text='MidiFile.__iter__/length with merge and tick2second inlined must yield t*M/(1e6*B) with M the tempo in force before each message (500000 until the first set_tempo, set_tempo applies to later deltas only), zero deltas 0, length the sum, type 2 refused; play() with a symbolic clock must sleep exactly (sum of times) - (now - start) when positive, read start once, yield after the sleep decision, filter meta messages; unit conversions are exact monomials with round-before-int, mutually inverse.',
              note='NOT decided: the numeric clause - floating point error of cumulative sums vs the exact integral, inverse up to rounding at extreme tempos (runtime values no static argument in reach bounds).',
              ref='DESIGN.md §3 C13'),
- 'C14': dict(tech='abstract interpretation in a symbolic string domain (literal text + decimal/float/hex segments); malformed-text catalogue through the interpreted parser; structural repr-conversion rule',
-             text='str(m) is computed symbolically for all 18 types (negative pitch range, sysex of 0/1/3 symbolic bytes, int and float symbolic times) and fed to the interpreted from_str: every attribute must come back symbol for symbol; dict/from_dict likewise; 30 malformed texts must raise ValueError and nothing else; parse_string_stream must report them with line numbers and continue; every __repr__ uses repr conversion for values and constructor keyword names.',
-             note='eval(repr(x)) itself is not executed: decided structurally (conversion flags, keyword tables). Float <-> text exactness is Python\'s repr guarantee (trusted). A text carrying skip_checks=/self= words is outside "valid message".',
+ 'C14': dict(tech='abstract interpretation in a symbolic string domain (literal text + decimal/float/hex segments); malformed-text catalogue through the interpreted parser; symbolic eval(repr(x)) by parsing the symbolic repr text',
+             text='str(m) is computed symbolically for all 18 types (negative pitch range, sysex of 0/1/3 symbolic bytes, int and float symbolic times) and fed to the interpreted from_str: every attribute must come back symbol for symbol; dict/from_dict likewise; 30 malformed texts must raise ValueError and nothing else; parse_string_stream must report them with line numbers and continue; repr(x) of messages, meta messages, tracks and files is computed symbolically, parsed with ast.parse and the constructor call it denotes is interpreted: the object built must equal x.',
+             note='Float <-> text exactness is Python\'s repr guarantee (trusted). A text carrying skip_checks=/self= words is outside "valid message".',
              ref='DESIGN.md §3 C14'),
  'C15': dict(tech='abstract interpretation of freeze/thaw/copy over all six message classes and None; MRO resolution of mutators; hashability scan',
              text='freeze and thaw map each class to its counterpart (mutually inverse, no dead isinstance branch), results are equal but independent objects, freeze of frozen is identity, None maps to None, non-message rejected; copy() gives a new object with its own dict, overrides go through the checks, frozen copies stay frozen; frozen __setattr__/__delattr__ resolve to methods raising on every path; __eq__/__hash__ are functions of vars(self) only and stored values are hashable.',
@@ -72,8 +72,8 @@ CHECKS.update({
              text='No MidiFile method outside __init__/_load stores an instance attribute or uses a caching decorator; observers leave file, tracks and messages untouched; for each observer (iterate, length, merged_track, save) and each documented edit route (tracks.append, add_track, track.append, delete, message time, ticks_per_beat, type) the observation after the edit equals that of a fresh file with the same contents.',
              note='Trusted: abstract interpreter. Edits are the documented routes (list operations / attribute assignment).',
              ref='DESIGN.md §3 C16'),
- 'C17': dict(tech='path enumeration of the context manager (finally covers the yield), single-writer scan of the global, call-graph scoping of codec-reaching calls, late-binding and helper-wiring rules',
-             text='On every path through the yield of meta_charset - normal and exceptional - the saved charset is restored; _charset has one writer; every call in MidiFile that can reach encode_string/decode_string is inside `with meta_charset(self.charset)`; the helpers read the global at call time and all text meta specs go through them.',
+ 'C17': dict(tech='abstract interpretation with a faithful model of `with <@contextmanager generator>` and a store for globals written through `global`; failure-point scenarios for _load/_save; un-summarised interpretation of the codec helpers',
+             text='MidiFile._load/_save are interpreted with charset X on files that succeed and that fail at every kind of point the property names (truncated header/track/event, invalid data byte, undecodable text, bad time in the n-th message, unencodable text): after the call - returned or raised - the process-wide charset is latin1 again, every encode_string/decode_string during the call saw X, a text meta message encoded right after sees latin1; nested overrides unwind level by level also on exceptions; only meta_charset (and helpers reachable only from it) assigns the global; encode_string/decode_string apply exactly .encode/.decode(<charset in force at call time>) (parameter defaults are evaluated at definition time by the interpreter, so early binding is caught).',
              note='Trusted: contextmanager semantics (body exception raised at the yield). Not decided: encodability of a given text in a given charset; concurrent loads with different charsets (global by design).',
              ref='DESIGN.md §3 C17'),
  'C18': dict(tech='abstract interpretation of SocketPort/PortServer on scripted socket/select doubles for every cut offset and several segmentations',
